@@ -31,6 +31,84 @@ func mapErrClass(err error) int {
 	return c
 }
 
+
+// ---- Mapper.ToTree (C16): random trees over names that the batch just mapped (and a few it did not) ----
+var mapTreeTypes = []ketoapi.TreeNodeType{ketoapi.TreeNodeUnion, ketoapi.TreeNodeExclusion, ketoapi.TreeNodeIntersection, ketoapi.TreeNodeLeaf, ketoapi.TreeNodeTupleToSubjectSet, ketoapi.TreeNodeComputedSubjectSet, ketoapi.TreeNodeNot, ketoapi.TreeNodeUnspecified}
+
+func mapTreeTypeIdx(ty ketoapi.TreeNodeType) int {
+	for i, x := range mapTreeTypes {
+		if x == ty {
+			return i
+		}
+	}
+	return 99
+}
+
+// genMapTree returns the internal tree and its rendering in names ("T <type> <subject> <children> ...")
+func genMapTree(ctx context.Context, e *env, hr *rng, pool []string, depth int, unknownNs bool) (*relationtuple.Tree, string) {
+	id := func(s string) uuid.UUID {
+		u, err := e.reg.MappingManager().MapStringsToUUIDsReadOnly(ctx, s)
+		if err != nil || len(u) != 1 {
+			panic("MapStringsToUUIDsReadOnly")
+		}
+		return u[0]
+	}
+	ty := hr.intn(len(mapTreeTypes))
+	tr := &relationtuple.Tree{Type: mapTreeTypes[ty]}
+	var sub string
+	switch k := hr.intn(10); {
+	case k < 5:
+		s := pool[hr.intn(len(pool))]
+		tr.Subject = &relationtuple.SubjectID{ID: id(s)}
+		sub = "I " + hx(s)
+	case k < 9:
+		n, o, r := hr.pick(stNamespaces), pool[hr.intn(len(pool))], hr.pick(stRelations)
+		if unknownNs && hr.chance(1, 3) {
+			n = "zz"
+		}
+		tr.Subject = &relationtuple.SubjectSet{Namespace: n, Object: id(o), Relation: r}
+		sub = "S " + hx(n) + " " + hx(o) + " " + hx(r)
+	default:
+		sub = "-"
+	}
+	nc := 0
+	if depth > 0 {
+		nc = hr.intn(4)
+	}
+	parts := []string{fmt.Sprintf("T %d %s %d", ty, sub, nc)}
+	for i := 0; i < nc; i++ {
+		c, s := genMapTree(ctx, e, hr, pool, depth-1, unknownNs)
+		tr.Children = append(tr.Children, c)
+		parts = append(parts, s)
+	}
+	return tr, strings.Join(parts, " ")
+}
+
+func fmtAPITree(t *ketoapi.Tree[*ketoapi.RelationTuple]) string {
+	if t == nil {
+		return "nil"
+	}
+	sub := "-"
+	if t.Tuple != nil {
+		switch {
+		case t.Tuple.SubjectSet != nil && t.Tuple.SubjectID != nil:
+			sub = "both"
+		case t.Tuple.SubjectSet != nil:
+			sub = "S " + hx(t.Tuple.SubjectSet.Namespace) + " " + hx(t.Tuple.SubjectSet.Object) + " " + hx(t.Tuple.SubjectSet.Relation)
+		case t.Tuple.SubjectID != nil:
+			sub = "I " + hx(*t.Tuple.SubjectID)
+		}
+		if t.Tuple.Namespace != "" || t.Tuple.Object != "" || t.Tuple.Relation != "" {
+			sub += "+fields"
+		}
+	}
+	parts := []string{fmt.Sprintf("T %d %s %d", mapTreeTypeIdx(t.Type), sub, len(t.Children))}
+	for _, c := range t.Children {
+		parts = append(parts, fmtAPITree(c))
+	}
+	return strings.Join(parts, " ")
+}
+
 // suiteMap: batches through the real Mapper (FromTuple, then ToTuple on the result) with adversarial names (C16)
 func suiteMap(t *testing.T, cfg cfgT) {
 	out := newSink(cfg, "cases.txt")
@@ -157,6 +235,39 @@ func suiteMap(t *testing.T, cfg cfgT) {
 			out.stat(fmt.Sprintf("batch.n%d", n))
 			out.stat("result." + strings.Fields(obs)[0])
 			cases++
+			if strings.HasPrefix(obs, "ok") && cases < cfg.n {
+				// the names of this batch are mapped now: trees over them (and over a name nobody wrote) through ToTree
+				pool := []string{"never-written-" + fmt.Sprint(cases)}
+				for _, tu := range ts {
+					pool = append(pool, tu.Object)
+					if tu.SubjectID != nil {
+						pool = append(pool, *tu.SubjectID)
+					} else {
+						pool = append(pool, tu.SubjectSet.Object)
+					}
+				}
+				if hr.chance(3, 4) {
+					pool = pool[1:]
+				}
+				unknownNs := hr.chance(1, 6)
+				tr, in := genMapTree(ctx, e, hr, pool, 1+hr.intn(4), unknownNs)
+				tobs := func() (res string) {
+					defer func() {
+						if rc := recover(); rc != nil {
+							res = "panic"
+						}
+					}()
+					at, err := e.reg.ReadOnlyMapper().ToTree(ctx, tr)
+					if err != nil {
+						return fmt.Sprintf("err %d", mapErrClass(err))
+					}
+					return "ok " + fmtAPITree(at)
+				}()
+				out.emit("maptree "+in, tobs)
+				out.stat("tree.nodes" + fmt.Sprint(min(strings.Count(in, "T "), 20)/5*5))
+				out.stat("treeresult." + strings.Fields(tobs)[0])
+				cases++
+			}
 		}
 		e.close()
 	}
